@@ -5,6 +5,7 @@ import (
 	"fmt"
 	"math/rand/v2"
 	"reflect"
+	"time"
 
 	"go.sia.tech/core/types"
 	"verif/internal/elems"
@@ -256,6 +257,39 @@ func checkDirected(b *harness.B, rng *rand.Rand) {
 		}
 		if !same {
 			b.Violate("C11/roundtrip/multiproof/shared-leaf/proof-not-restored", fmt.Sprintf("with one chain-index leaf referenced by %d storage proofs (and a parent referenced twice) the multiproof round trip does not restore every proof", refs), map[string]any{"references": refs, "leaves": n})
+		}
+	}
+}
+
+// checkReusedBlock: a Block variable that held a v2 block and then receives a v1 block through the V1Block codec (a
+// store or a sync loop decoding successive blocks into one variable). The v1 encoding carries no v2 part, so the
+// decoded block has none - whatever the variable held before - and its ID is the ID of the block that was encoded.
+func checkReusedBlock(b *harness.B, rng *rand.Rand) {
+	for it := 0; it < 20; it++ {
+		v1 := types.Block{ParentID: types.BlockID{byte(it + 1)}, Nonce: rng.Uint64(), Timestamp: time.Unix(1600000000+int64(it), 0),
+			MinerPayouts: []types.SiacoinOutput{{Value: types.Siacoins(uint32(1 + it)), Address: types.Address{byte(it)}}}}
+		if it%2 == 0 {
+			v1.Transactions = []types.Transaction{{ArbitraryData: [][]byte{{byte(it), 2, 3}}}}
+		}
+		enc := encT(types.V1Block(v1))
+		used := types.Block{ParentID: types.BlockID{0xEE}, Nonce: 7, Timestamp: time.Unix(1700000000, 0),
+			V2: &types.V2BlockData{Height: 555555 + uint64(it), Commitment: types.Hash256{0xAA}}}
+		if it%3 != 0 {
+			used.V2.Transactions = []types.V2Transaction{{ArbitraryData: []byte{1, byte(it)}}}
+		}
+		// the variable really held that block: it was decoded into it
+		(*types.V2Block)(&used).DecodeFrom(types.NewBufDecoder(encT(types.V2Block(used))))
+		b.Eval(1)
+		b.Count("v1_blocks_decoded_into_a_variable_that_held_a_v2_block", 1)
+		b.Distinct("directed-reused-block", it%2, it%3 != 0)
+		d := types.NewBufDecoder(enc)
+		(*types.V1Block)(&used).DecodeFrom(d)
+		if d.Err() != nil {
+			b.Violate("C11/roundtrip/V1Block/decode-error", d.Err().Error(), nil)
+			continue
+		}
+		if used.V2 != nil || used.ID() != v1.ID() || !bytes.Equal(encT(types.V2Block(used)), encT(types.V2Block(v1))) {
+			b.Violate("C11/reused-receiver/types.V1Block/v2-part-of-the-previous-block-survives", fmt.Sprintf("a v1 block decoded into a Block that held a v2 block keeps that block's v2 data (height %d, %d v2 transactions): its ID is %v, the encoded block's ID is %v", used.V2.Height, len(used.V2.Transactions), used.ID(), v1.ID()), map[string]any{"encoded": fmt.Sprintf("%x", enc)})
 		}
 	}
 }
